@@ -161,7 +161,14 @@ def worker_main(argv):
     noshrink = bool(os.environ.get("VERIF_NOSHRINK"))
     seen_fp = set()
     t0 = time.time()
-    for i in idxs:
+    # thorough tier only: a worker stops *starting* runs when its share of the wall budget is used up (the runs
+    # it did are complete and each is a pure function of its index; the runs not started are reported as such)
+    budget = float(os.environ.get("VERIF_WORKER_BUDGET", "0") or 0)
+    res["not_started"] = 0
+    for n_done, i in enumerate(idxs):
+        if budget and time.time() - t0 > budget:
+            res["not_started"] = len(idxs) - n_done
+            break
         rs = run_seed(seed, pid, i)
         streams = Streams(rs)
         try:
@@ -298,7 +305,10 @@ def check_main(pid, tier, seed, nruns=None, jobs=None, quiet=False):
     pending = list(enumerate(tasks))
     running = []
     harness_fail = []
-    deadline = time.time() + float(os.environ.get("VERIF_WALL", prop.WALL[tier]))
+    wall_limit = float(os.environ.get("VERIF_WALL", prop.WALL[tier]))
+    deadline = time.time() + wall_limit
+    waves = max(1, -(-len(tasks) // max(1, jobs)))
+    worker_budget = (0.85 * wall_limit / waves) if tier == "thorough" else 0
     while pending or running:
         while pending and len(running) < jobs:
             tno, (h, part) = pending.pop(0)
@@ -306,6 +316,7 @@ def check_main(pid, tier, seed, nruns=None, jobs=None, quiet=False):
             outf = os.path.join(WORK, "%s-%d.out.json" % (tag, tno))
             json.dump(part, open(idxf, "w"))
             env = dict(os.environ, PYTHONHASHSEED=str(h), GFAPY_VERIF_SIM="1")
+            env["VERIF_WORKER_BUDGET"] = "%.1f" % worker_budget
             env.pop("VERIF_REPLAY_CHILD", None)
             p = subprocess.Popen([PY, os.path.join(VERIF, "sim", "main.py"), "--worker",
                                   pid, tier, str(seed), idxf, outf],
@@ -352,6 +363,7 @@ def check_main(pid, tier, seed, nruns=None, jobs=None, quiet=False):
         agg["samples"] += r["samples"]
         agg["harness_errors"] += r["harness_errors"]
         agg["timeouts"] += r["timeouts"]
+        agg["not_started"] = agg.get("not_started", 0) + r.get("not_started", 0)
         agg["log_digests"].update(r.get("log_digests", {}))
     agg["samples"].sort(key=lambda s: s.get("run", 0))
     wall = time.time() - t0
@@ -381,6 +393,9 @@ def check_main(pid, tier, seed, nruns=None, jobs=None, quiet=False):
         print("%s %s seed=%d runs=%d steps=%d distinct_states=%d wall=%.1fs (%.0f runs/h)" % (
             pid, tier, seed, agg["runs"], agg["steps"], len(agg["states"]), wall,
             agg["runs"] / max(wall, 1e-9) * 3600))
+        if agg.get("not_started"):
+            print("  (wall budget of the thorough tier reached: %d of %d planned runs were not started)" %
+                  (agg["not_started"], nruns))
     for kid, n in sorted(agg["known_hits"].items()):
         print("KNOWN-FINDING: property=%s %s [%s; hit by %d run(s)]" % (pid, known_all[kid]["what"], kid, n))
     for path, v in vio_lines:
@@ -417,6 +432,7 @@ def build_evidence(prop, pid, tier, seed, nruns, agg, wall, nviol, hashseeds, jo
         "samples": agg["samples"][:3],
         "exhaustive": False,
         "runs_requested": nruns,
+        "runs_not_started_wall_budget": agg.get("not_started", 0),
         "simulated_steps": agg["steps"],
         "runs_per_hour": round(agg["runs"] / max(wall, 1e-9) * 3600),
         "seeds": {"verif_seed": seed, "first_run": 0, "last_run": nruns - 1},
